@@ -142,7 +142,7 @@ class TypedGen:
 			'enumerate': True, 'closures': True, 'lambdas': True, 'try': True, 'classes': True, 'enums': True, 'floats': True,
 			'str_slice': True, 'list_slice': True, 'comps': True, 'tuples': True, 'dicts': True, 'props': True, 'classmethods': True, 'inherit': True,
 			'defaults': True, 'str_methods': True, 'while': True, 'list_methods': True, 'nested_ternary': True,
-			'destructure_literal': True, 'str_lit_concat': True, 'range_bound_mutation': False,
+			'destructure_literal': True, 'str_lit_concat': True, 'range_bound_mutation': False, 'enum_value': True,
 		}
 		if opts:
 			self.o.update(opts)
@@ -186,9 +186,14 @@ class TypedGen:
 		if cands and x < 0.55:
 			v = r.choice(cands)
 			return IntE(v.name, v.lo, v.hi)
-		if x < 0.85:
+		if x < 0.82:
 			n = r.choice([0, 1, 2, 3, 5, 7, 10, 12, 100, 255])
 			return IntE(str(n), n, n)
+		if x < 0.86 and self.enums and self.o['enum_value']:
+			en = r.choice(list(self.enums))
+			m, val = r.choice(self.enums[en])
+			self.f.add('enum.value')
+			return IntE(f'{en}.{m}.value', val, val)
 		# derived atoms
 		lists = [v for v in scope.values() if v.type[0] in ('list', 'str', 'dict')]
 		if lists:
@@ -838,7 +843,7 @@ class TypedGen:
 	def gen_enum(self) -> None:
 		r = self.r
 		name = self.fresh(['Color', 'Kind', 'Mode', 'Level'], {})
-		members = r.sample(['RED', 'GREEN', 'BLUE', 'LOW', 'MID', 'HIGH', 'ON', 'OFF'], r.choice([2, 3]))
+		members = r.sample(['RED', 'GREEN', 'BLUE', 'LOW', 'MID', 'HIGH', 'ON', 'OFF', 'DARK_RED', 'RED_DARK', 'OFF_ON', 'LOW_MID'], r.choice([2, 3, 4]))
 		self.enums[name] = []
 		self.emit(f'class {name}(Enum):')
 		used_vals: set[int] = set()
